@@ -52,7 +52,7 @@ ASSUMPTIONS = [
     "the archive oracle does not prescribe the name of a rotated file, only that nothing existing is replaced and every record is found where its template's lineage began",
 ]
 EXPECTED_PROBES = ["empty-output-read", "double-close", "with-body-raised", "split-exact-multiple", "split-part-readable", "rotation", "same-second-rotation",
-                   "clock-backward", "pre-existing-rotated", "restart", "skewed-stamp"]  # fmt: skip
+                   "clock-backward", "pre-existing-rotated", "restart", "skewed-stamp", "two-writers-open"]  # fmt: skip
 
 TARGETS = [
     ("stream", "/simfs/o.records"),
@@ -94,7 +94,7 @@ def budget(tier):
 
 
 def wall_cap(tier):
-    return 300 if tier == "quick" else 3600
+    return 300 if tier == "quick" else 1500
 
 
 # -- generation ---------------------------------------------------------------------------------
@@ -134,14 +134,15 @@ def generate(rng, tier, index):
     for ch in term:
         ops.append({"c": {"op": "close"}, "f": {"op": "flush"}, "X": {"op": "exit"}, "R": {"op": "raise_exit"}}[ch])
     return {"sub": "history", "target": tkind, "uri": uri, "count": count, "sl": sl, "with": term[0] in "XR", "ops": ops, "pool": POOL,
-            "buffer_size": rng.choice([1, 7, 64, 8192])}  # fmt: skip
+            "buffer_size": rng.choice([1, 7, 64, 8192]), "neighbour": rng.random() < 0.35}  # fmt: skip
 
 
 DELTAS_US = [0, 1, 400000, 1000000, 60 * 1000000, 61 * 1000000, 59 * 60 * 1000000, 3600 * 1000000, 86400 * 1000000, -3600 * 1000000, -86400 * 1000000, 2 * 3600 * 1000000]
 
 
 def gen_archive(rng, tier):
-    kind = rng.choice(["archiver", "archiver", "template-hour", "template-day", "template-name", "template-field", "template-minute", "archive-uri"])
+    kind = rng.choice(["archiver", "archiver", "template-hour", "template-day", "template-name", "template-field", "template-minute", "archive-uri",
+                      "template-hour-zst", "template-hour-lz4", "template-hour-bz2"])
     n_ops = rng.choice([3, 5, 8, 12, 20, 30]) if tier == "quick" else rng.choice([3, 6, 10, 20, 40])
     burst = rng.random() < 0.5  # many events inside one second
     ops = []
@@ -322,6 +323,18 @@ def run_history(plan, w, viols, states):
         if plan.get("with"):
             writer = writer.__enter__()
         w.log("w", "open", kind)
+        # a neighbour: a second writer of the same kind, open at the same time, writing its own records to its own
+        # target in between (codec contexts, caches and class-level state must not leak between writers)
+        neighbour = None
+        nb_model = []
+        if plan.get("neighbour") and kind not in ("sqlite",) and not kind.startswith("split"):
+            nb_uri = uri.replace("/simfs/o.", "/simfs/nb/o.").replace("rel.records", "nb/rel.records")
+            if nb_uri != uri:
+                w.fs.makedirs("/simfs/nb", exist_ok=True)
+                w.fs.makedirs("/simfs/cwd/nb", exist_ok=True)
+                neighbour = RecordWriter(nb_uri)
+                w.keep.append(neighbour)
+                w.probe("two-writers-open")
         closes = 0
         bytes_at_first_close = None
         for op in plan["ops"]:
@@ -338,6 +351,10 @@ def run_history(plan, w, viols, states):
                     rec = pool.make("D1", [n, "v%d" % n, bool(n % 2)])
                 else:
                     rec = pool.make("D0", [n, "v%d" % n])
+                if neighbour is not None:
+                    nrec = pool.make("D0", [1000 + n, "nb%d" % n])
+                    neighbour.write(nrec)
+                    nb_model.append(1000 + n)
                 try:
                     writer.write(rec)
                     model.append((n, "v%d" % n if desc != "D2" else "t"))
@@ -387,8 +404,21 @@ def run_history(plan, w, viols, states):
                 closed = True
         if not closed:
             return
+        nb_files = {}
+        if neighbour is not None:
+            neighbour.flush()
+            neighbour.close()
+            for pth in [x for x in w.fs.listing() if "/nb/" in x]:
+                nb_files[pth] = w.fs.files.pop(pth)
         states.add("%s|%s" % (kind, "".join(shape)[:12]))
         check_history(plan, w, kind, uri, scratch, model, shape, add)
+        for pth, ino in nb_files.items():
+            w.fs.files[pth] = ino
+            res = decode_target(w, kind, pth, bytes(ino.data))
+            got = res["ind"] if res["ind"] is not None else []
+            if res["ind_err"] or got != nb_model:
+                add(_viol("C17.lost", "a second %s writer open at the same time lost or mixed records: its file decodes to %s (%s), written %s" % (kind, short(got, 60), res["ind_err"], short(nb_model, 60)),
+                          {"kind": kind, "history": "".join(shape), "neighbour": True}))  # fmt: skip
     finally:
         if scratch:
             w.keep.clear()
@@ -456,7 +486,7 @@ def check_history(plan, w, kind, uri, scratch, model, shape, add):
                 if n_in == 0:
                     # a trailing (or only) part without records: the property asks for a valid empty output
                     add(_viol("C17.empty-invalid", "part %s of a %s split holds no records and is rejected by the reader: %s (history %s)" % (path, base, res["lib_err"], hist),
-                              {"kind": kind, "records_in_file": 0, "history": hist, "err": res["lib_err"], "part": i, "parts": len(files)}))  # fmt: skip
+                              {"kind": kind, "records_in_file": 0, "history": hist, "err": res["lib_err"], "part": i, "parts": len(files), "limit": limit}))  # fmt: skip
                 else:
                     add(_viol("C17.split-part-unreadable", "part %s of a %s split is rejected by the reader: %s (history %s)" % (path, base, res["lib_err"], hist)))
                 lib_ok = False
@@ -557,6 +587,8 @@ def expected_path(plan, root, name, gen_ts, s):
         return "%s/by/%s.records.gz" % (root, s)
     if kind == "template-minute":
         return "%s/m/%s-%s.records" % (root, name, gen_ts.strftime("%Y%m%dT%H%M"))
+    if kind.startswith("template-hour-"):
+        return "%s/%s-%s.records.%s" % (root, name, gen_ts.strftime("%Y%m%dT%H"), kind.rsplit("-", 1)[1])
     raise ValueError(kind)
 
 
@@ -574,6 +606,9 @@ def make_archiver(plan, root, name):
         "template-name": root + "/{name}.records.gz",
         "template-field": root + "/by/{record.s}.records.gz",
         "template-minute": root + "/m/{name}-{ts:%Y%m%dT%H%M}.records",
+        "template-hour-zst": root + "/{name}-{record._generated:%Y%m%dT%H}.records.zst",
+        "template-hour-lz4": root + "/{name}-{record._generated:%Y%m%dT%H}.records.lz4",
+        "template-hour-bz2": root + "/{name}-{record._generated:%Y%m%dT%H}.records.bz2",
     }[kind]
     return PathTemplateWriter(tmpl, name=name)
 
@@ -800,15 +835,36 @@ def _stream_no_header(plan, viol):
     if "not a RecordStream" not in err and "Unknown file format" not in err:
         return False
     hist = info.get("history", "")
-    if kind.startswith("split"):
-        # the offending part is one that never saw a record: the split writer opened it after the
-        # previous part filled up (or at start) and closed it without flush
-        return True if (hist.endswith("c") and not hist.endswith(("fc",)) and "X" not in hist and "R" not in hist) else False
-    # plain stream target: no flush, no with-exit anywhere before the first close
     first_close = next((i for i, ch in enumerate(hist) if ch in "cXR"), None)
     if first_close is None or hist[first_close] != "c":
-        return False
-    return "f" not in hist[:first_close] and "w" not in hist[:first_close]
+        return False  # closed by leaving a with-block (normally or by an exception): must be valid
+    before = hist[:first_close]
+    if kind.startswith("split"):
+        # the offending part is the one that was current at the first close: it must not have seen a record
+        # or a flush since the split writer opened it (at start, or right after the limit-th write of the
+        # previous part)
+        limit = int(info.get("limit") or 0)
+        n_w = before.count("w")
+        if limit <= 0 or n_w % limit != 0:
+            return False
+        if n_w:
+            idx = [i for i, ch in enumerate(before) if ch == "w"][-1]
+            since = before[idx + 1 :]
+        else:
+            since = before
+        return "f" not in since
+    # plain stream target: no flush and no write anywhere before the first close
+    return "f" not in before and "w" not in before
 
 
 KNOWN = {"stream-close-without-flush-no-header": _stream_no_header}
+
+
+def mutate(plan, rng):
+    from ..driver import mutate_ops
+
+    p = mutate_ops(plan, rng, fix_plan)
+    if p["sub"] == "history" and rng.random() < 0.3:
+        p["count"] = rng.choice([1, 2, 3, 4, 5, 7])
+        p["sl"] = rng.choice([1, 2, 3])
+    return p
